@@ -56,7 +56,7 @@ def profile(name, rng):
                     maxtasks=rng.choice([None, 1, 2]), max_jobs=rng.choice([4, 8, 12]),
                     n=rng.choice([1, 2, 3, 4]),
                     dts=[0.05, 0.1, 0.3, 0.5, 1.0, 2.0, 5.0, 10.0],
-                    die_statuses=[-9, -11, 1, 2, 70, 255, 0, 155, 0, 155])
+                    die_statuses=[-9, -11, 1, 2, 70, 255, 0, 155, 0, 155, -40])
         w.update(die=3, supervise=6, advance=4, scan=0, apply=3, discard=0.6)
     base['n'] = base.get('n', n)
     return base
